@@ -357,7 +357,7 @@ func alignSecond() {
 }
 
 // runSeq runs the case once; ok=false when the clock left the window.
-func runSeq(sc seqCase) (obs []string, desc map[string]any, ok bool) {
+func runSeq(sc seqCase) (obs []string, desc map[string]any, missing bool, ok bool) {
 	p := newPlug(sc.lazy)
 	defer p.close()
 	var bgStarted atomic.Int64
@@ -372,12 +372,13 @@ func runSeq(sc seqCase) (obs []string, desc map[string]any, ok bool) {
 	s0 := time.Now().Unix()
 	var waited int64
 	hits, stale := 0, 0
+	refreshed := map[int]bool{}
 	for _, o := range sc.ops {
 		switch o.kind {
 		case "load":
 			now := time.Now().Unix()
 			if now != s0+waited {
-				return nil, nil, false
+				return nil, nil, false, false
 			}
 			b, err := o.m.build(o.k).Pack()
 			if err != nil {
@@ -408,7 +409,12 @@ func runSeq(sc seqCase) (obs []string, desc map[string]any, ok bool) {
 			}
 			if lz == 1 {
 				stale++
-				// the refresh goroutine has been requested; see it start (or join a finishing one)
+				// a refresh has been requested; see it start. Only a hit that follows an earlier
+				// refresh of the same question may instead have joined that one while it finishes.
+				limit := 5 * time.Second
+				if refreshed[o.k] {
+					limit = 1500 * time.Millisecond
+				}
 				select {
 				case <-bgSig:
 					<-bgDone
@@ -416,8 +422,15 @@ func runSeq(sc seqCase) (obs []string, desc map[string]any, ok bool) {
 						runtime.Gosched()
 					}
 					time.Sleep(300 * time.Microsecond)
-				case <-time.After(1500 * time.Millisecond):
+				case <-time.After(limit):
+					if !refreshed[o.k] {
+						for len(obs) < len(sc.ops) {
+							obs = append(obs, "BNone")
+						}
+						return obs, map[string]any{"kind": "seq", "note": sc.note, "refresh_missing": true}, true, true
+					}
 				}
+				refreshed[o.k] = true
 			}
 			if served != nil {
 				hits++
@@ -461,12 +474,12 @@ func runSeq(sc seqCase) (obs []string, desc map[string]any, ok bool) {
 		}
 	}
 	if time.Now().Unix() != s0+waited || frac() > 960*time.Millisecond {
-		return nil, nil, false
+		return nil, nil, false, false
 	}
 	time.Sleep(200 * time.Microsecond)
 	desc = map[string]any{"kind": "seq", "lazy_cache_ttl": sc.lazy, "ops": len(sc.ops), "hits": hits, "stale_hits": stale,
 		"refreshes_started": bgStarted.Load(), "note": sc.note}
-	return obs, desc, true
+	return obs, desc, false, true
 }
 
 func emitSeq(w *hx.Writer, sc seqCase) {
@@ -477,9 +490,9 @@ func emitSeq(w *hx.Writer, sc seqCase) {
 func doSeq(sc seqCase) (string, hx.Case) {
 	var obs []string
 	var desc map[string]any
-	ok := false
+	ok, missing := false, false
 	for try := 0; try < 40 && !ok; try++ {
-		obs, desc, ok = runSeq(sc)
+		obs, desc, missing, ok = runSeq(sc)
 	}
 	if !ok {
 		fmt.Fprintf(os.Stderr, "c05: case %s could not be run inside one clock second\n", sc.id)
@@ -495,7 +508,7 @@ func doSeq(sc seqCase) (string, hx.Case) {
 	}
 	return kind, hx.Case{
 		ID:   sc.id,
-		Coq:  hx.App("CSeq", hx.Z(int64(sc.lazy)), hx.List(ops), hx.List(obs)),
+		Coq:  hx.App("CSeq", hx.Z(int64(sc.lazy)), hx.List(ops), hx.List(obs), hx.Bool(missing)),
 		Desc: desc,
 		FKey: "seq",
 	}
